@@ -112,7 +112,8 @@ pub struct Unit {
     pub resultmap: bool,
     pub mutexlocals: Vec<String>,
     pub poisonlocks: bool,
-    pub blockingctx: bool, // calls into user code / value destruction carry `true|false`: does this code run where blocking is allowed
+    pub blockingctx: bool,
+    pub ctxfns: Vec<String>, // helper functions (targets of methodfn/methodval) that take the blocking-context flag as last argument // calls into user code / value destruction carry `true|false`: does this code run where blocking is allowed
     pub dropvalue: Option<String>,
     pub heapupgrade: Option<String>, // name of the heap parameter: `if let Some(x) = W.upgrade() { B }` runs B on the heap's object
     pub constfn: Vec<(String, String)>,
@@ -379,6 +380,7 @@ pub fn parse_unit(text: &str) -> Unit {
             "mutexlocals" => u.mutexlocals.extend(words),
             "poisonlocks" => u.poisonlocks = true,
             "blockingctx" => u.blockingctx = true,
+            "ctxfns" => u.ctxfns.extend(words),
             "dropvalue" => u.dropvalue = Some(words[0].clone()),
             "heapupgrade" => u.heapupgrade = Some(words[0].clone()),
             "inlinecall" => u.inlinecall.extend(words),
